@@ -702,6 +702,7 @@ pub fn zst(a: &Args, rep: &mut Report) {
             seq.push((c % ZOPS as u64) as usize);
             c /= ZOPS as u64;
         }
+        heartbeat();
         let mut map: griddle::HashMap<(), (), Bh> = griddle::HashMap::with_hasher(Bh::default());
         let mut set: griddle::HashSet<(), Bh> = griddle::HashSet::with_hasher(Bh::default());
         let mut present = (false, false);
